@@ -393,6 +393,7 @@ def correspondence(res, tier, rng, corpus_cases=()):
     real_values(res, rig, rng, 24 if quick else 160)
     # ---- (e) real TwoTimeBathCorrelations objects -----------------------------------
     bath_correspondence(res, tier, rng)
+    bath_steps_correspondence(res, tier, rng)
 
 
 def value_table(rig, n, s, d, k, mode):
@@ -645,6 +646,147 @@ def bath_correspondence(res, tier, rng):
                          dict(payload, **bad))
 
 
+class _Recorder:
+    """stands in for `_system_correlations`: records the index expressions applied to it"""
+
+    def __init__(self, arr):
+        self.arr, self.keys = arr, []
+        self.shape, self.size = arr.shape, arr.size
+
+    def __getitem__(self, key):
+        self.keys.append(key)
+        return self.arr[key]
+
+
+def literal_times(dt_lit, mmax):
+    """grid times as a user writes them: decimal literals m*dt, products m*dt, and off-grid points"""
+    d = Decimal(dt_lit)
+    dt = float(dt_lit)
+    out = []
+    for m in range(0, mmax + 1):
+        out.append(float(d * m))        # the decimal literal, e.g. 0.3
+        out.append(m * dt)              # computed
+        out.append((m + 0.3) * dt)      # off grid
+    return sorted(set(out))
+
+
+def bath_steps_correspondence(res, tier, rng):
+    """every float time -> step conversion of the bath-correlation code vs the regenerated Lean
+    functions, exactly: the slice stop handed to compute_correlations, the slice of the system
+    correlations, the kernel size and the region boundary `switch` (read off the real kernel)."""
+    import oqupy
+    import oqupy.bath_dynamics as bd
+    from . import oq
+    lines, expect, meta = [], [], []
+    o = np.diag([0.5, -0.5]).astype(complex)
+    corr = oqupy.PowerLawSD(alpha=0.1, zeta=1.0, cutoff=10.0, cutoff_type="exponential",
+                            temperature=2.0)
+    bath = oqupy.Bath(o, corr)
+    system = oqupy.System(0.3 * o)
+    rho = generic_state(2)
+    big = np.triu(np.arange(1, 61 * 61 + 1).reshape(61, 61) * (0.01 + 0.003j))
+    orig_cc = bd.compute_correlations
+    for dt_lit, mmax in (("0.1", 20 if tier == "quick" else 50), ("0.05", 12 if tier == "quick" else 40),
+                         ("0.2", 10 if tier == "quick" else 30)):
+        dt = float(dt_lit)
+        obj = bd.TwoTimeBathCorrelations(system, bath, oq.long_trivial_pt(60, dt=dt), initial_state=rho)
+        times = literal_times(dt_lit, mmax)
+        kernels = []
+        orig_kernel = obj._calc_kernel
+
+        def spy_kernel(*a, _k=kernels, _o=orig_kernel, **kw):
+            r = _o(*a, **kw)
+            _k.append(r)
+            return r
+        obj._calc_kernel = spy_kernel
+        pairs = [(t1, t2) for t2 in times for t1 in times if t1 <= t2 and t2 >= dt]
+        if tier == "quick":
+            lit = {float(Decimal(dt_lit) * m) for m in range(mmax + 1)}
+            pairs = [p for p in pairs if p[0] in lit and p[1] in lit] + rng.sample(pairs, 150)
+        for (t1, t2) in pairs:
+            seen = {}
+
+            def fake_cc(system_, pt_, a_, b_, ta, tb, **k):
+                seen["cmd"] = ta.stop
+                c0 = tb.start or 0
+                return None, np.zeros((ta.stop, tb.stop - c0), dtype=complex)
+            bd.compute_correlations = fake_cc
+            try:
+                # a genuinely empty 0x0 matrix (the constructor's `[[]]` has shape (1, 0), which makes
+                # a first request for a single step a no-op -- reported separately)
+                obj._system_correlations = np.zeros((0, 0), dtype=complex)
+                obj.generate_system_correlations(t2, progress_type="silent")
+            finally:
+                bd.compute_correlations = orig_cc
+            rec = _Recorder(big)
+            obj._system_correlations = rec
+            obj.generate_system_correlations = lambda *a, **k: None
+            del kernels[:]
+            try:
+                obj.correlation(1.0, t1, 3.0, t2, dagg=(1, 0), progress_type="silent")
+                re_k = kernels[-1][0]
+                sw = int(np.count_nonzero(np.abs(re_k).sum(axis=1) > 0))
+                exp = "cmd=%d corr=%d ker=%d switch=%d" % (seen["cmd"], rec.keys[-1][0].stop,
+                                                           re_k.shape[0], sw)
+            except Exception as e:    # noqa: BLE001
+                exp = "cmd=%s err:%s" % (seen.get("cmd"), type(e).__name__)
+            finally:
+                del obj.generate_system_correlations
+            lines.append("steps %s %s %s" % (rat(t1), rat(t2), rat(dt)))
+            expect.append(exp)
+            meta.append(("bath-steps", dt_lit, t1, t2))
+            res.count("bath-steps:dt=" + dt_lit)
+        # occupation: last_time = len(process_tensor) * dt
+        for n in ([3, 7, 43, 59] if tier == "quick" else list(range(1, 60))):
+            obj2 = bd.TwoTimeBathCorrelations(system, bath, oq.long_trivial_pt(n, dt=dt),
+                                              initial_state=rho)
+            got = {}
+            obj2._system_correlations = np.zeros((n + 2, n + 2), dtype=complex)
+            og, ok = obj2.generate_system_correlations, obj2._calc_kernel
+
+            def spy_gen(final_time, *a, _g=got, **k):
+                _g["last"] = final_time
+                _g["cmd"] = int(np.round(final_time / dt))      # only used if the real one is skipped
+
+            def spy_k(*a, _g=got, _o=ok, **k):
+                r = _o(*a, **k)
+                _g["ker"] = r[0].shape[0]
+                _g["switch"] = int(np.count_nonzero(np.abs(r[0]).sum(axis=1) > 0))
+                return r
+            seen2 = {}
+
+            def fake_cc2(system_, pt_, a_, b_, ta, tb, **k):
+                seen2["cmd"] = ta.stop
+                return None, np.zeros((ta.stop, tb.stop - (tb.start or 0)), dtype=complex)
+            obj2._calc_kernel = spy_k
+            bd.compute_correlations = fake_cc2
+            try:
+                # the real generate_system_correlations on an empty matrix reveals its step count
+                obj2._system_correlations = np.zeros((0, 0), dtype=complex)
+                obj2.occupation(1.0, progress_type="silent")
+                last = n * dt
+                exp = "last=%s cmd=%d ker=%d switch=%d" % (rat(last), seen2["cmd"], got["ker"],
+                                                            got["switch"])
+            except Exception as e:    # noqa: BLE001
+                exp = "err:%s:%s" % (type(e).__name__, str(e)[:60])
+            finally:
+                bd.compute_correlations = orig_cc
+            lines.append("last %d %s" % (n, rat(dt)))
+            expect.append(exp)
+            meta.append(("bath-last", dt_lit, n))
+            res.count("bath-last:dt=" + dt_lit)
+    out = fw.run_driver("C07Bath", lines)
+    if len(out) != len(lines):
+        raise fw.Infra("driver C07Bath returned %d lines for %d inputs" % (len(out), len(lines)))
+    first = True
+    for line, exp, got, m in zip(lines, expect, out, meta):
+        res.case(line, True, {"op": line, "impl": exp, "model": got} if first else None)
+        first = False
+        if exp != got:
+            res.disagree("bath time->step conversion: model and implementation differ on " + line,
+                         {"line": line, "impl": exp, "model": got, "meta": repr(m)})
+
+
 def displaced_oscillator(rig, c_exact):
     """closed forms for pure dephasing ([H_S, O] = 0): mode a_w(t) = a_w e^{-iwt} - O g (1 - e^{-iwt})/w"""
     temp = rig.corr.temperature
@@ -677,12 +819,16 @@ def search_bath(report, rng):
                         how="Bath stores O = U D U^dagger; the operator rebuilt for the system "
                             "correlations is not O"))
     # (5) pure dephasing: occupation / two-time bath correlation vs the displaced oscillator
-    for name, o in bath_couplings(rng, 0)[:3]:
-        rig = BathRig(o, n=10, dt=0.1, epsrel=1e-7, commuting=True)
+    cases5 = [(name, o, 11, 0.1, [(0.4, 0.9), (0.3, 1.1), (0.6, 1.1), (0.7, 1.1), (1.1, 1.1)])
+              for name, o in bath_couplings(rng, 0)[:3]]
+    cases5.append(("diag sigma_z/2", bath_couplings(rng, 0)[0][1], 8, 0.05, [(0.15, 0.4), (0.35, 0.4)]))
+    for name, o, nsteps, dt5, time_pairs in cases5:
+        rig = BathRig(o, n=nsteps, dt=dt5, epsrel=1e-7, commuting=True)
         c_exact = float(np.trace(rig.o @ rig.o @ rig.rho).real)
         occ_ref, corr_ref = displaced_oscillator(rig, c_exact)
         for w in (1.0, 3.0):
             tl, occ = rig.obj.occupation(w, progress_type="silent")
+            tl = np.asarray(tl)[:len(occ)]      # the length of the axis is judged in search_bath_axes
             dev = np.abs(occ - occ_ref(tl, w))
             if not dev.max() < 1e-6:
                 k = int(np.argmax(dev))
@@ -691,16 +837,58 @@ def search_bath(report, rng):
                         "got": float(occ[k]), "displaced_oscillator_closed_form": float(occ_ref(tl[k], w)),
                         "coupling_operator_re": o.real.tolist(), "coupling_operator_im": o.imag.tolist(),
                         "system_hamiltonian": "0.7 * coupling operator (pure dephasing)"})
-        for dagg in [(0, 0), (0, 1), (1, 0), (1, 1)]:
-            t1, t2, w1, w2 = 0.4, 0.9, 1.0, 3.0
+        for (t1, t2), dagg in itertools.product(time_pairs, [(0, 0), (0, 1), (1, 0), (1, 1)]):
+            # times written as decimal literals (0.3/0.1 is a few ulp below 3)
+            w1, w2 = 1.0, 3.0
             num = rig.obj.correlation(w1, t1, w2, t2, dagg=dagg, progress_type="silent")
             ref = corr_ref(t1, t2, w1, w2, dagg)
             if not abs(num - ref) < 1e-6:
-                report("bath-correlation", "bath-correlation:coupling=%s dagg=%s" % (name, dagg),
+                report("bath-correlation", "bath-correlation:coupling=%s dagg=%s time_1=%r time_2=%r dt=%r"
+                       % (name, dagg, t1, t2, dt5),
                        {"api": "TwoTimeBathCorrelations.correlation", "freq_1": w1, "time_1": t1,
                         "freq_2": w2, "time_2": t2, "dagg": list(dagg), "got": repr(complex(num)),
                         "displaced_oscillator_closed_form": repr(complex(ref)),
                         "coupling_operator_re": o.real.tolist(), "coupling_operator_im": o.imag.tolist()})
+
+
+def search_bath_axes(report):
+    """(7) the returned occupation axis pairs every value with its time; (8) a fresh object asked
+    for a single step"""
+    import oqupy
+    import oqupy.bath_dynamics as bd
+    from . import oq
+    o = np.diag([0.5, -0.5]).astype(complex)
+    corr = oqupy.PowerLawSD(alpha=0.1, zeta=1.0, cutoff=10.0, cutoff_type="exponential",
+                            temperature=2.0)
+    bath = oqupy.Bath(o, corr)
+    system = oqupy.System(0.3 * o)
+    for dt in (0.1, 0.05):
+        for n in range(2, 31):
+            obj = bd.TwoTimeBathCorrelations(system, bath, oq.long_trivial_pt(n, dt=dt),
+                                             initial_state=generic_state(2),
+                                             system_correlations=np.triu(np.full((n, n), 0.25 + 0j)))
+            tl, occ = obj.occupation(1.0, progress_type="silent")
+            want = [k * dt for k in range(n + 1)]
+            if len(tl) != len(occ) or [float(x) for x in tl] != want:
+                report("bath-occupation-axis", "bath-occupation-axis:len(process_tensor)=%d dt=%r" % (n, dt),
+                       {"api": "TwoTimeBathCorrelations.occupation", "len_process_tensor": n, "dt": dt,
+                        "len_times": len(tl), "len_occupation": len(occ),
+                        "last_times": [float(x) for x in tl[-3:]],
+                        "how": "tlist = np.arange(0, last_time + dt, dt) has one entry more than the "
+                               "occupation array when (n*dt + dt)/dt rounds up"})
+    name, op = "complex [[1,-0.5j],[0.5j,0]]", np.array([[1.0, -0.5j], [0.5j, 0.0]])
+    rig = BathRig(op, n=3, dt=0.1, epsrel=1e-7, commuting=True)
+    c_exact = float(np.trace(rig.o @ rig.o @ rig.rho).real)
+    _, corr_ref = displaced_oscillator(rig, c_exact)
+    num = rig.obj.correlation(1.0, 0.1, 3.0, 0.1, dagg=(1, 0), progress_type="silent")
+    ref = corr_ref(0.1, 0.1, 1.0, 3.0, (1, 0))
+    if not abs(num - ref) < 1e-6:
+        report("bath-single-step", "bath-correlation-single-step:fresh object time_2=dt",
+               {"api": "TwoTimeBathCorrelations.correlation", "freq_1": 1.0, "time_1": 0.1, "freq_2": 3.0,
+                "time_2": 0.1, "dt": 0.1, "dagg": [1, 0], "got": repr(complex(num)),
+                "displaced_oscillator_closed_form": repr(complex(ref)),
+                "how": "the empty `[[]]` correlation matrix has shape (1, 0), so a first request for "
+                       "one step generates nothing and the kernel is summed against an empty array"})
 
 
 # ---------------------------------------------------------------------------
@@ -934,6 +1122,8 @@ def search(res, rng=None, only=None):
                 "how": "steps (100001, 100000, 100001) are not time ordered, yet the entry is not NaN "
                        "(np.allclose with rtol=1e-5 accepts the unsorted tuple)"})
 
+    # (7)-(8) axis of occupation(), single-step request on a fresh object
+    search_bath_axes(report)
 
 # ---------------------------------------------------------------------------
 
